@@ -59,7 +59,7 @@ def make_logger(debug=False, name=None):
     lg.propagate = False
     lg.handlers = []
     lg.addHandler(_NullHandler())
-    lg.setLevel(logging.DEBUG if debug else logging.CRITICAL)
+    lg.setLevel(logging.DEBUG if debug else logging.INFO)      # OctoPrint's default level: INFO lines are formatted in production
     return lg
 
 
